@@ -163,4 +163,34 @@ inductive RSub : List Token → Op → Bool → Prop
 
 end
 
+/-- a statement may be followed by a separator (`;` or a line break: one NEWLINE token) or by the end of the text -/
+def stmtEnd (nxt : LA) : Prop := nxt = none ∨ nxt = some .NEWLINE
+
+/-- one statement (`none`: the empty statement) -/
+inductive RStmt : List Token → Option Op → LA → Prop
+  | empty {nxt} : stmtEnd nxt → RStmt [] none nxt
+  | expr {ts e b nxt} : stmtEnd nxt → RExpr 0 .right ts e b nxt → RStmt ts (some e) nxt
+  | assign {n eq ts v b nxt} : stmtEnd nxt → n.ty = .NAME → eq.ty = .ASSIGN → RExpr 0 .right ts v b nxt →
+      RStmt (n :: eq :: ts) (some (.assign n.val v)) nxt
+  | short {n o k ts v b nxt} : stmtEnd nxt → n.ty = .NAME → o.ty = .SHORT_OP → ShortK.ofText? o.val = some k →
+      RExpr 0 .right ts v b nxt → RStmt (n :: o :: ts) (some (.short n.val k v)) nxt
+  | del {d ts e c k nxt} : stmtEnd nxt → d.ty = .DEL → RExpr 0 .right ts e true nxt → indexParts e = some (c, k) →
+      RStmt (d :: ts) (some (.call "__delitem__".toList [c, k])) nxt
+  | setitem {ts e c k eq tsv v b nxt} : stmtEnd nxt → RExpr 0 .right ts e true (some .ASSIGN) → indexParts e = some (c, k) →
+      eq.ty = .ASSIGN → RExpr 0 .right tsv v b nxt →
+      RStmt (ts ++ eq :: tsv) (some (.call "__setitem__".toList [c, k, v])) nxt
+  | setop {ts e c k o tsv v b nxt} : stmtEnd nxt → RExpr 0 .right ts e true (some .SHORT_OP) → indexParts e = some (c, k) →
+      o.ty = .SHORT_OP → RExpr 0 .right tsv v b nxt →
+      RStmt (ts ++ o :: tsv) (some (.call "__setitem_with_op__".toList [c, k, .value (.str o.val), v])) nxt
+
+def pushStmt (acc : List Op) : Option Op → List Op
+  | some o => o :: acc
+  | none => acc
+
+/-- a program: statements separated by one NEWLINE token each (blank statements are dropped) -/
+inductive RCode : List Op → List Token → List Op → Prop
+  | last {acc ts s} : RStmt ts s none → RCode acc ts (pushStmt acc s).reverse
+  | more {acc ts s nl rest out} : RStmt ts s (some .NEWLINE) → nl.ty = .NEWLINE → RCode (pushStmt acc s) rest out →
+      RCode acc (ts ++ nl :: rest) out
+
 end Sq
